@@ -6,6 +6,7 @@ import (
 	"bufio"
 	"bytes"
 	"fmt"
+	"github.com/thushan/olla/verifharness/hx"
 	"io"
 	"net"
 	"strconv"
@@ -139,7 +140,9 @@ func NextSeq() int64 { return atomic.AddInt64(&globalSeq, 1) }
 
 // NewRaw starts a raw backend on a free localhost port.
 func NewRaw(id string) (*Raw, error) {
-	ln, err := net.Listen("tcp", "127.0.0.1:0")
+	// a port reserved for this process (not a kernel-assigned one): while the backend is "down"
+	// nobody else on the machine can be handed its port and answer in its place
+	ln, err := net.Listen("tcp", fmt.Sprintf("127.0.0.1:%d", hx.FreePort()))
 	if err != nil {
 		return nil, err
 	}
@@ -163,6 +166,9 @@ func (b *Raw) Close() {
 		b.ln.Close()
 	}
 }
+
+// HealthHits returns how many health-check requests (…/verif-health) the backend has answered.
+func (b *Raw) HealthHits() int64 { return atomic.LoadInt64(&b.healthHit) }
 
 // Reopen listens again on the same port after Close.
 func (b *Raw) Reopen() error {
